@@ -42,6 +42,6 @@ KnownSet == {i \in Blk.lo .. Blk.hi : ~Within(Events[i]) /\ Events[i].known \in 
 Report == b > 0 =>
     /\ (BadSet = {} \/ PrintT(ToJson([k |-> "BAD", s |-> BadSet])))        \* JSON: always one line
     /\ (KnownSet = {} \/ PrintT(ToJson([k |-> "KNOWN", s |-> KnownSet])))
-    /\ PrintT(<<"BLOCK", Blk.law, Blk.region, Blk.hi - Blk.lo + 1>>)
+    /\ PrintT(ToJson([k |-> "BLOCK", law |-> Blk.law, region |-> Blk.region, n |-> Blk.hi - Blk.lo + 1]))
 Accept == b > 0 => BadSet = {}
 =============================================================================
